@@ -62,9 +62,17 @@ def is_term(v, name=None):
 
 
 class Ev(T.Evaluator):
-    def __init__(self, crate=None, **kw):
+    def __init__(self, crate=None, term_keys=None, **kw):
         super().__init__(**kw)
         self.crate = crate
+        self.term_keys = set(term_keys or ())     # def keys whose calls stay structured terms `@def:<key>(args)`
+
+    def call(self, n, c, args, env):
+        self.effects.append(("callv", n, args))   # every call with its evaluated arguments (receiver first)
+        key = c.get("inst_key") or c.get("key")
+        if key in self.term_keys:
+            return T.V("@def:" + key, *args)
+        return super().call(n, c, args, env)
 
     # -- function values ---------------------------------------------------------------------------
     def apply(self, fv, args, node=None):
@@ -215,3 +223,119 @@ def _has_mut_binding(p):
     if isinstance(p, list):
         return any(_has_mut_binding(v) for v in p)
     return False
+
+
+# ------------------------------------------------------------------------------------------------- element streams
+class StreamError(Exception):
+    pass
+
+
+PASS_THROUGH = {"iter", "into_iter", "collect", "by_ref", "cloned", "copied", "peekable", "fuse"}
+EMPTY_CTORS = {"new", "with_capacity", "default", "with_capacity_and_hasher", "with_hasher"}
+
+
+def stream_elem(e, root, ev, env, roots, sources, depth=0):
+    """Abstract element of the sequence an expression iterates over, for the shapes `x.iter()`, `&x`, `x.keys()`,
+    `s.chain(t)` (both must yield the same abstract element), `s.map(closure)` (the closure is applied by `ev`), `.collect()`
+    / `.into_iter()` and let-bound intermediates.  `roots`: local id -> name of a source collection (a parameter).
+    `sources` collects (root name, "entries" | "keys").  Anything else (filter, skip, take, rev, values, zip ..) raises
+    StreamError: the caller reports it (fail closed) instead of guessing."""
+    if depth > 24:
+        raise StreamError("too deep")
+    e = H.peel(e)
+    k = e.get("k")
+    if k == "path" and e["res"].get("r") == "local":
+        lid = e["res"]["id"]
+        if lid in roots:
+            sources.add((roots[lid], "entries"))
+            return ("t", [T.sym("k"), T.sym("v")])
+        init = H.let_init_of(root, lid)
+        if init is None:
+            raise StreamError("local `%s` is not a let-bound intermediate" % e["res"].get("name"))
+        return stream_elem(init, root, ev, env, roots, sources, depth + 1)
+    if k == "mcall":
+        nm = e["name"]
+        if nm in PASS_THROUGH:
+            return stream_elem(e["recv"], root, ev, env, roots, sources, depth + 1)
+        if nm == "keys":
+            l = H.local_of(e["recv"])
+            if l and l[0] in roots:
+                sources.add((roots[l[0]], "keys"))
+                return T.sym("key")
+            raise StreamError("keys() of something that is not an input map: %s" % H.render(e)[:80])
+        if nm == "chain" and len(e["args"]) == 1:
+            a = stream_elem(e["recv"], root, ev, env, roots, sources, depth + 1)
+            b = stream_elem(e["args"][0], root, ev, env, roots, sources, depth + 1)
+            if a != b:
+                raise StreamError("chained sequences of different element shape")
+            return a
+        if nm == "map" and len(e["args"]) == 1 and H.peel(e["args"][0]).get("k") == "closure":
+            x = stream_elem(e["recv"], root, ev, env, roots, sources, depth + 1)
+            return ev.apply(("closure", H.peel(e["args"][0]), dict(env)), [x])
+    raise StreamError("sequence adaptor not understood: %s" % H.render(e)[:100])
+
+
+def per_element(fb, site, ev, env, roots):
+    """What a function does with each element of its input sequence(s) at the iteration construct that encloses `site`
+    (a node inside the per-element code, e.g. the call of the combiner).  Two equivalent shapes are understood:
+
+      * `<seq>.map(|elem| Ok((K, V))).collect()` as the function's result,
+      * `let mut acc = <empty map>; for elem in <seq> { ..; acc.insert(K, V); } Ok(acc)` with the loop unconditional.
+
+    -> dict(key=K, value=V, sources={(root, "entries"|"keys")}, allowed=[nodes that mutate legitimately]) or raises StreamError."""
+    chain = H.parents_of(fb["body"], site)
+    if chain is None:
+        raise StreamError("site not inside the function")
+    sources = set()
+    result = H.peel(_fn_result(fb["body"]) or {}, refs=False)
+    for i in range(len(chain) - 1, -1, -1):
+        c = chain[i]
+        if c.get("k") == "for":
+            if H.path_conditions(fb["body"], c):
+                raise StreamError("the loop over the input is conditional")
+            elem = stream_elem(c["iter"], fb["body"], ev, env, roots, sources)
+            e2 = dict(env)
+            if T.match_pat(c["pat"], elem, e2) is not True:
+                raise StreamError("loop pattern does not fit the element %s" % T.show(elem))
+            ev.effects = []
+            try:
+                ev.ev(c["body"], e2)
+            except (T.Return, T.Break):
+                raise StreamError("early exit from the loop body")
+            ins = [x for x in ev.effects if x[0] == "callv" and x[1].get("k") == "mcall" and x[1]["name"] == "insert" and H.local_of(x[1]["recv"])]
+            if len(ins) != 1 or len(ins[0][2]) != 3:
+                raise StreamError("expected exactly one `acc.insert(key, value)` per element, found %d" % len(ins))
+            acc = H.local_of(ins[0][1]["recv"])[0]
+            init = H.let_init_of(fb["body"], acc)
+            i0 = H.peel(init) if init is not None else {}
+            if not (i0.get("k") == "call" and H.callee_name(i0) in EMPTY_CTORS and "IndexMap" in (i0.get("ty") or "")):
+                raise StreamError("accumulator is not initialised with an empty IndexMap")
+            okres = False
+            if result.get("k") == "call" and (H.ctor_of(result) or (None, None))[1] == "Ok" and len(result["args"]) == 1:
+                l = H.local_of(result["args"][0])
+                okres = bool(l) and l[0] == acc
+            if not okres:
+                raise StreamError("the function does not return Ok(<accumulator>)")
+            lets = [n for n in H.walk(fb["body"]) if n.get("k") == "let" and n.get("pat", {}).get("k") == "bind" and n["pat"]["id"] == acc]
+            return {"key": ins[0][2][1], "value": ins[0][2][2], "sources": sources, "allowed": lets + [ins[0][1]], "shape": "for"}
+        if c.get("k") == "closure":
+            m = chain[i - 1] if i > 0 else {}
+            if m.get("k") == "ref" and i > 1:
+                m = chain[i - 2]
+            if not (m.get("k") == "mcall" and m["name"] == "map" and any(H.peel(a) is c for a in m["args"])):
+                raise StreamError("closure is not the argument of an iterator `.map(..)`")
+            if not (result.get("k") == "mcall" and result["name"] == "collect" and H.peel(result["recv"]) is m):
+                raise StreamError("the mapped sequence is not collected as the function's result")
+            elem = stream_elem(m["recv"], fb["body"], ev, env, roots, sources)
+            out = ev.apply(("closure", c, dict(env)), [elem])
+            if not (out[0] == "v" and out[1] == "Ok" and out[2] and out[2][0][0] == "t" and len(out[2][0][1]) == 2):
+                raise StreamError("per-element result is not Ok((key, value)): %s" % T.show(out))
+            return {"key": out[2][0][1][0], "value": out[2][0][1][1], "sources": sources, "allowed": [], "shape": "map"}
+    raise StreamError("no enclosing loop / iterator map")
+
+
+def _fn_result(body):
+    b = H.peel(body, refs=False)
+    if b.get("k") == "block":
+        return b.get("tail")
+    return b
